@@ -9,6 +9,7 @@ def run(ctx, rep):
     objmodel.rule_call_protocol(ctx, rep, "C08-R5")
     objmodel.rule_no_stale_link_caches(ctx, rep, "C08-R7")
     objmodel.rule_null_is_not_an_object(ctx, rep, "C08-R8")
+    objmodel.rule_bind_composes(ctx, rep, "C08-R9")
     emitrules.report(ctx, rep, {"O9": "C08-R6"}, {"C08-R6": "call/apply/bind and callback re-entry return to their own caller (sound host re-entry)"})
     rep.undecided += [
         "agreement with a reference object model over histories of operations (runtime differential)",
